@@ -28,6 +28,12 @@ type SParams struct {
 	Initial        map[uint16]SDoc
 	NoInitial      bool
 	Serial         bool
+	// histories around a whole Dcp (C13)
+	Dcp       bool
+	Auto      bool
+	Health    bool
+	WShutdown float64
+	LateOps   int
 }
 
 func DefaultSParams() SParams {
@@ -92,7 +98,12 @@ func GenRun(rng *rand.Rand, p SParams) *SHistory {
 	}
 	d := NewSDriverOpt(cfg, initial, p.Serial)
 	h := &SHistory{Cfg: cfg, Initial: initial}
-	stopped := false // stopCh closed: the client is shutting down, only its close / a restart may follow
+	if p.Dcp {
+		d = NewSDriverDcp(cfg, initial, p.Auto, p.Health, p.MaxVbs)
+		h.IsDcp, h.Auto = true, p.Auto
+	}
+	down, lateLeft := false, p.LateOps // the teardown has run; ops that may still arrive afterwards
+	stopped := false                   // stopCh closed: the client is shutting down, only its close / a restart may follow
 	exec := func(op SOp) []SOut {
 		outs := d.Exec(op)
 		h.Ops = append(h.Ops, op)
@@ -172,13 +183,32 @@ func GenRun(rng *rand.Rand, p SParams) *SHistory {
 		}
 	}
 	pickRange := func() (uint16, uint16) {
+		if p.Dcp { // static membership, one member: the whole bucket
+			return 0, uint16(p.MaxVbs - 1)
+		}
 		f := uint16(rng.Intn(4))
 		l := f + uint16(rng.Intn(p.MaxVbs))
 		return f, l
 	}
 
-	for len(h.Ops) < p.MaxOps && !failed {
-		if !open && !balancing {
+	for (len(h.Ops) < p.MaxOps || (p.Dcp && !down) || (down && lateLeft > 0)) && !failed {
+		if down {
+			lateLeft--
+		}
+		// (the model has one save lock; in the code it belongs to the checkpoint object of a session: Close() with a store
+		// call of an earlier session still in flight is a corpus history of C13, not generated here)
+		if p.Dcp && !down && len(h.Ops) >= p.MaxOps && queued == 0 && (!inflight || saveSess == sess) {
+			outs := exec(SOp{Kind: "shutdown", R1: rng.Float64() >= p.PSaveFail, R2: rng.Float64() >= p.PSaveFail/2})
+			down, open = true, false
+			inflight = d.Store.InFlight()
+			for _, o := range outs {
+				if o.Kind == "fail" || o.Kind == "ignored" {
+					failed = true
+				}
+			}
+			continue
+		}
+		if !open && !balancing && !down {
 			f, l := pickRange()
 			if everOpened && rng.Intn(3) > 0 {
 				f, l = first, last
@@ -199,7 +229,7 @@ func GenRun(rng *rand.Rand, p SParams) *SHistory {
 				cs = append(cs, choice{w, f})
 			}
 		}
-		if open {
+		if open || down {
 			var live []uint16 // vBuckets whose stream has not ended for good: the server sends nothing else
 			for v := int(first); v <= int(last); v++ {
 				if !vb(uint16(v)).ended {
@@ -285,6 +315,9 @@ func GenRun(rng *rand.Rand, p SParams) *SHistory {
 				v := live[rng.Intn(len(live))]
 				g := vb(v)
 				cause := []string{"transient", "transient", "clean", "final"}[rng.Intn(4)]
+				if p.Dcp { // a final end of every stream makes the client shut itself down: not a history of Close()
+					cause = "transient"
+				}
 				op := SOp{Kind: "end", Vb: v, Cause: cause, ErrIdx: rng.Intn(10), UUID: g.uuid}
 				if cause == "transient" {
 					if rng.Intn(3) == 0 {
@@ -303,11 +336,11 @@ func GenRun(rng *rand.Rand, p SParams) *SHistory {
 					g.ended = true
 				}
 			})
-			add(map[bool]float64{true: 0, false: p.WReb}[stopped], func() {
+			add(map[bool]float64{true: 0, false: p.WReb}[stopped || down], func() {
 				exec(SOp{Kind: "rebclose"})
 				open, balancing = false, true
 			})
-			add(map[bool]float64{true: 0.6, false: p.WClose}[stopped], func() {
+			add(map[bool]float64{true: 0.6, false: p.WClose}[stopped]*map[bool]float64{true: 0, false: 1}[down || p.Dcp], func() {
 				exec(SOp{Kind: "close", Cancel: rng.Intn(2) == 0})
 				open = false
 				// a closed stream is only ever followed by a restart of the process
@@ -316,7 +349,22 @@ func GenRun(rng *rand.Rand, p SParams) *SHistory {
 				outstanding, acked, nCtx = nil, nil, 0
 			})
 		}
-		if balancing {
+		if p.Dcp && !down && (open || balancing) && queued == 0 && (!inflight || saveSess == sess) {
+			add(p.WShutdown, func() {
+				outs := exec(SOp{Kind: "shutdown", R1: rng.Float64() >= p.PSaveFail, R2: rng.Float64() >= p.PSaveFail/2})
+				down, open = true, false
+				inflight = d.Store.InFlight()
+				for _, o := range outs {
+					if o.Kind == "fail" || o.Kind == "ignored" {
+						failed = true
+					}
+				}
+			})
+		}
+		if down && rng.Intn(6) == 0 {
+			add(0.5, func() { exec(SOp{Kind: "shutdown", R1: true, R2: true}) }) // a second Close()
+		}
+		if balancing && !down {
 			add(1.0, func() {
 				f, l := first, last
 				if rng.Float64() < p.POutOfRangeReb {
@@ -372,9 +420,12 @@ func GenRun(rng *rand.Rand, p SParams) *SHistory {
 							inflight, dirtyOfSave = true, o.Dirty
 							queued--
 						}
+						if o.Kind == "nosave" { // a queued Save() found nothing to do
+							queued--
+						}
 					}
 				})
-				if queued < 2 && saveSess == sess {
+				if queued < 2 && saveSess == sess && !down {
 					add(p.WSave*0.5, func() {
 						outs := exec(SOp{Kind: "savequeue"})
 						if len(outs) == 0 {
@@ -383,7 +434,7 @@ func GenRun(rng *rand.Rand, p SParams) *SHistory {
 					})
 				}
 			}
-			add(p.WCrash, func() {
+			add(map[bool]float64{true: 0, false: p.WCrash}[p.Dcp], func() {
 				exec(SOp{Kind: "crash"})
 				open, balancing, inflight, queued = false, false, false, 0
 				outstanding, acked, nCtx = nil, nil, 0
@@ -407,7 +458,7 @@ func GenRun(rng *rand.Rand, p SParams) *SHistory {
 				}
 				exec(SOp{Kind: "scrape", High: hi})
 			})
-		} else if balancing && rng.Intn(4) == 0 {
+		} else if (balancing || down) && rng.Intn(4) == 0 {
 			add(p.WScrape, func() { exec(SOp{Kind: "scrape", High: map[uint16]uint64{}}) })
 		}
 		tot := 0.0
@@ -427,7 +478,7 @@ func GenRun(rng *rand.Rand, p SParams) *SHistory {
 		}
 	}
 	// never leave the real stream held inside a callback
-	if balancing && !failed {
+	if balancing && !failed && !down {
 		sv := server(first, last, false)
 		exec(SOp{Kind: "rebopen", First: first, Last: last, Sv: sv})
 	}
@@ -443,6 +494,7 @@ func GenRun(rng *rand.Rand, p SParams) *SHistory {
 	h.Digest = d.Digest()
 	d.drainSaves()
 	h.Faith = d.Faith
+	h.Life = d.Life
 	return h
 }
 
